@@ -252,6 +252,15 @@ fn run_all(e: &mut Enumerate, thorough: bool) {
     for (m, n) in [(0usize, 0usize), (0, 2), (2, 0), (1, 1), (1, 3), (3, 1), (2, 2), (3, 2)] {
         e.visit::<f64, HyperDualVec<f64, f64, Dyn, Dyn>>(Dims::mn(m, n));
     }
+    // long parts (the Python classes go up to 10 fixed-size entries and beyond that dynamically):
+    // a renderer that wraps or abbreviates long vectors must still print every entry
+    e.visit::<f64, DualVec<f64, f64, Const<10>>>(Dims::n(10));
+    for n in [8usize, 9, 12, 17] {
+        e.visit::<f64, DualVec<f64, f64, Dyn>>(Dims::n(n));
+    }
+    e.visit::<f64, Dual2Vec<f64, f64, Dyn>>(Dims::n(9));
+    e.visit::<f64, HyperDualVec<f64, f64, Dyn, Dyn>>(Dims::mn(9, 2));
+    e.visit::<f64, HyperDualVec<f64, f64, Dyn, Dyn>>(Dims::mn(1, 12));
     e.visit::<f32, Dual2Vec<f32, f32, Dyn>>(Dims::n(2));
     e.visit::<f32, HyperDualVec<f32, f32, Dyn, Dyn>>(Dims::mn(2, 2));
     // nested
